@@ -36,10 +36,41 @@ func (u *Unit) evalCall(st *State, e *ast.CallExpr) Term {
 		if impl := u.devirtualize(callee); impl != nil {
 			callee = impl
 		}
-		return u.callFunc(st, e, callee, recvExpr)
+		r := u.callFunc(st, e, callee, recvExpr)
+		if u.mayRunClosures(e, callee) {
+			u.havocClosureVars(st) // an escaping closure may have run during / before this call
+		}
+		return r
 	}
 	// dynamic call through a function value
-	return u.callDynamic(st, e)
+	r := u.callDynamic(st, e)
+	u.havocClosureVars(st)
+	return r
+}
+
+// mayRunClosures: could an escaping closure of this function run during the call (or have its writes become visible at it)?
+// Repository callees: always (they may hold the closure). External callees: only when the call receives a function value, or
+// is a synchronisation operation by name (Wait, Lock, ...); a plain library call (Close, Write, Sprintf, ...) cannot reach
+// a closure of this function.
+func (u *Unit) mayRunClosures(e *ast.CallExpr, callee *types.Func) bool {
+	if len(u.closureWritten) == 0 {
+		return false
+	}
+	if callee.Pkg() == nil || u.eng.isRepoPkg(callee.Pkg().Path()) {
+		return true
+	}
+	switch callee.Name() {
+	case "Wait", "Lock", "Unlock", "RLock", "RUnlock", "Do", "Go", "Done", "Add", "Broadcast", "Signal", "Stop", "Shutdown", "Serve":
+		return true
+	}
+	for _, a := range e.Args {
+		if t := u.typeOf(a); t != nil {
+			if _, ok := t.Underlying().(*types.Signature); ok {
+				return true
+			}
+		}
+	}
+	return false
 }
 
 // staticCallee returns the called *types.Func (method or function) if statically known.
